@@ -32,4 +32,19 @@ CLAIMS = {
         "note": TRUST,
         "technique": "MIR control-dependence (guard) rules on effect sites, binop/callee inventory for Cost::combine",
     },
+    "C10": {
+        "text": "Partial, structural: decides on MIR that in run_schedule the Saturate loop exits only on updated == false of the recursive result, Repeat is a 0..limit range loop whose only other exit is can_stop == true, Sequence has no early exit and Run delegates to run_rules; that run_rules checks :until before stepping and does not step when it holds; that every sub-report is unioned into the returned report, RunReport::union ORs updated / ANDs can_stop, singleton derives both from IterationReport::changed() which is merge_all()'s result; that combined rulesets hold names and are expanded only by the step functions. Does NOT decide equality of databases under the algebraic schedule laws.",
+        "note": TRUST,
+        "technique": "MIR loop-exit edge classification, dominance/reachability, value-origin rules",
+    },
+    "C13": {
+        "text": "Partial, structural: decides on MIR that the merge callback combines the current and new row's subsume flags with max (constants evaluated: SUBSUMED=1 > NOT_SUBSUMED=0), reports a flag-only change and writes the merged flag; that the merged row is what is stored at every merge site (R-MERGE-STORED, shared with C05; found F1 which also lost the flag on the parallel path, fixed); that rule bodies constrain the subsume column to NOT_SUBSUMED unless include_subsumed, with only check_facts passing a constant true; that rebuild rules hand the row's flag variable to rebuild_row/set_with_subsume and the native rebuilder's columns come from the schema only; that the subsume action writes SUBSUMED under insert_if_eq(cur, NOT_SUBSUMED); that extraction skips subsumed rows. Does NOT decide behaviour across all interleavings.",
+        "note": TRUST,
+        "technique": "MIR value-origin and control-dependence rules over every flag-carrying path, const evaluation facts",
+    },
+    "C17": {
+        "text": "Partial, structural: decides on MIR the writer discipline behind 'representative = minimum id' and 'compression preserves the partition': UnionFind.parents is written only by reset/reserve (identity), union (slot max(find a, find b) := min(..)) and find (values loaded from parents); find returns only at a root; find_naive stores nothing; in the concurrent structure all mutations are CAS in merge/find_impl, merge CASes the max root from itself to the min root with fresh find_impl operands and retries on failure, find_impl only CASes in loaded values; bridge merge functions agree (R-MIN). Does NOT decide partition correctness over all sequences nor linearizability.",
+        "note": TRUST,
+        "technique": "who-may-write inventory + MIR value-origin min/max selection rules",
+    },
 }
